@@ -128,6 +128,30 @@ def law_sweep(ctx, sc):
         ek = np.where(estk < y.reshape(-1, 1), taus * dk, (1 - taus) * dk)
         if qk.shape != (n, 3) or np.any(np.abs(qk - ek) > 1e-12 * (1 + dk)):
             bad("pinball-vector-taus", "quantile_score with a vector of taus is not the column-wise pinball loss", case)
+        # results are the caller's: the score array of one call keeps its values when the function is called again with other
+        # estimates of the same shape (scoring two retrievals on one test set)
+        if n <= 400:
+            first = sc.quantile_score(est, y, [tau])
+            kept = np.array(first, dtype=float, copy=True)
+            sc.quantile_score(est + 1.0, y, [tau])
+            sc.quantile_score(y.copy(), y, [tau])
+            now = np.asarray(first, dtype=float)
+            if now.shape != kept.shape or not np.array_equal(now, kept, equal_nan=True):
+                bad("pinball-result-aliased", "the array returned by quantile_score changed its values when the function was called again "
+                    f"with other estimates of the same shape (max change {float(np.max(np.abs(now - kept))) if now.shape == kept.shape else 'shape'})", case)
+        # memory layout: (n, k) truth and prediction in DIFFERENT layouts (C order against Fortran order / a transposed view,
+        # as netCDF / xarray data with transposed dimensions are): mape and bias pair the values by index, not by memory position
+        if n >= 6 and n % 2 == 0 and n <= 400:
+            t2 = (np.abs(y) + 0.5).reshape(n // 2, 2)
+            p2 = t2 * (1 + 0.01 * np.arange(n).reshape(n // 2, 2))
+            want_m = float(np.mean(np.abs((p2 - t2) / t2)) * 100)
+            want_b = float(np.mean((p2 - t2) / t2) * 100)
+            for lab_, pa, ta in (("prediction in Fortran order", np.asfortranarray(p2), t2),
+                                 ("truth a transposed view", p2, np.ascontiguousarray(t2.T).T)):
+                gm, gb = float(sc.mape(pa, ta)), float(sc.bias(pa, ta))
+                if abs(gm - want_m) > 1e-9 * (1 + abs(want_m)) or abs(gb - want_b) > 1e-9 * (1 + abs(want_b)):
+                    bad("score:memory-layout", f"mape / bias of ({n // 2}, 2) arrays with the {lab_}: {gm!r} / {gb!r}, paired by index "
+                        f"{want_m!r} / {want_b!r}", dict(case, layout=lab_))
         # argument dtypes: whole-number estimates handed over as an INTEGER array, estimates in float32 against float64
         # observations -- the score is the pinball loss of the VALUES (numpy promotes to the wider type; the observation is
         # never rounded to the type of the estimate)
